@@ -293,6 +293,29 @@ def r3(ctx, facts):
            "a sink with an override pattern receives the line formatted by its own formatter: the override line is produced only "
            "under 'this sink has an override', reaches write_log on every path from there, and is not replaced by the logger's line "
            "on the way", fn=w)
+    # R3i: the sink's own formatter exists when it is used: created on the 'missing' outcome, from that sink's override options
+    mk = [n for n in w.walk() if ((n["k"] == "BinaryOperator" and n["op"] == "=") or (n["k"] == "CXXOperatorCallExpr" and short(n.get("callee") or "").endswith("operator="))) and
+          any(x["k"] == "MemberExpr" and x.get("mname") == "_override_pattern_formatter" and on_loopvar(x.get("base"))
+              for x in walk(n["lhs"] if n["k"] == "BinaryOperator" else n["args"][0])) and
+          any(is_call(x, r"^std::make_shared<quill::(v\d+::)?PatternFormatter") for x in walk(n["rhs"] if n["k"] == "BinaryOperator" else n["args"][1]))]
+    mkp = npos(w, mk)
+    from_opts = bool(mk) and all(any(x["k"] == "MemberExpr" and x.get("mname") == "_override_pattern_formatter_options" and on_loopvar(x.get("base"))
+                                     for x in walk(n["rhs"] if n["k"] == "BinaryOperator" else n["args"][1])) for n in mk)
+    exists = []
+    for bid, b in g.blocks.items():
+        c = g.term_cond(bid)
+        if c is None:
+            continue
+        core, neg = core_and_neg(c)
+        if any(x["k"] == "MemberExpr" and x.get("mname") == "_override_pattern_formatter" and on_loopvar(x.get("base")) for x in walk(core)) and \
+                not any(is_call(x, r"PatternFormatter::format$") for x in walk(core)):
+            exists.append((bid, "F" if neg else "T"))  # label of 'formatter exists'
+    ok_i = bool(mkp) and from_opts and bool(exists) and bool(d_over) and \
+        not g.exists_path(app, d_over, avoid_nodes=mkp, avoid_edges=exists) and \
+        not g.exists_path([g.entry_node], mkp, avoid_edges=[(b, other(l)) for (b, l) in exists])
+    ctx.ob("C16.R3i", "_write_log_statement:override-formatter-created", ok_i,
+           "a sink's override formatter is created from that sink's own override options exactly when it does not exist yet, and "
+           "every path to its use has seen or created it", fn=w)
     # R3g: the line is chosen afresh for every sink
     alld = sorted(set(d_over) | set(d_log))
     stale = g.exists_path(app, wlp, avoid_nodes=alld) if written != logger_line else False
